@@ -16,6 +16,10 @@ pub fn guarded<T>(f: impl FnOnce() -> T) -> Result<T, String> {
 
 /// Silences the default panic hook (panics of the code under test are recorded, not printed).
 pub fn quiet_panics() {
+    // VERIF_LOUD=1 (debugging the harness itself): keep the default hook
+    if std::env::var("VERIF_LOUD").map(|v| v == "1").unwrap_or(false) {
+        return;
+    }
     std::panic::set_hook(Box::new(|_| {}));
 }
 
